@@ -585,6 +585,71 @@ def override_methods(world):
   return out
 
 
+_ROLE_CACHE = {}
+
+
+def _pick(cands, hint, what):
+  uniq = []
+  for f in cands:
+    if not any(f is g for g in uniq):
+      uniq.append(f)
+  named = [f for f in uniq if f.name == hint]
+  if named:
+    return named[0]
+  if len(uniq) == 1:
+    return uniq[0]
+  raise AnalysisError("%s was not found (hint: %s; %d candidates)" % (what, hint, len(uniq)))
+
+
+def role_anchors(world):
+  """Private helpers of useractions the rules anchor on, found by what they do (the names are
+  hints only), so that a renamed helper is followed:
+    formula_renamer   iterates <gencode>.grist_names() (today: _prepare_formula_renames)
+    pick_col_name     calls identifiers.pick_col_ident (today: _pick_col_name)
+    adjust_one        hands one of its own parameters to pick_col_name as the extra avoid set
+                      (today: _adjust_one_column_update)"""
+  key = id(world)
+  if key in _ROLE_CACHE:
+    return _ROLE_CACHE[key][0]
+  ua = world.repo.cls("useractions.UserActions")
+  mod = world.repo.module("useractions")
+  funcs = list(ua.methods.values()) + list(mod.functions.values())
+
+  def loops_over_names(fi):
+    return any(isinstance(s, ast.For) and isinstance(s.iter, ast.Call) and
+               isinstance(s.iter.func, ast.Attribute) and s.iter.func.attr == "grist_names"
+               for s in walk_no_nested(fi.node))
+
+  out = {}
+  out["formula_renamer"] = _pick([f for f in funcs if loops_over_names(f)],
+                                 "_prepare_formula_renames",
+                                 "useractions: the function that patches formulas for a rename")
+  out["pick_col_name"] = _pick(
+    [f for f in funcs if any(endswith(dotted(c.func), "identifiers.pick_col_ident")
+                             for c in calls_in(f.node.body))], "_pick_col_name",
+    "useractions: the function that picks a column id")
+  pcn = out["pick_col_name"]
+  pps = pcn.params()
+
+  def hands_on_avoid(fi):
+    for c in calls_in(fi.node.body):
+      f = c.func
+      nm = f.attr if isinstance(f, ast.Attribute) else (f.id if isinstance(f, ast.Name) else None)
+      if nm != pcn.name:
+        continue
+      b = bind_args(c, pps[1:] if pps and pps[0] in ("self", "cls") else pps)
+      extra = (b or {}).get(pps[-1]) if pps else None
+      if isinstance(extra, ast.Name) and extra.id in fi.params():
+        return True
+    return False
+
+  out["adjust_one"] = _pick([f for f in funcs if f is not pcn and hands_on_avoid(f)],
+                            "_adjust_one_column_update",
+                            "useractions: the function that adjusts one column update")
+  _ROLE_CACHE[key] = (out, world)
+  return out
+
+
 HARMLESS, HARMFUL, UNKNOWN = "harmless", "harmful", "unknown"
 
 
@@ -610,9 +675,10 @@ class RenameSite(object):
         ctor = E.action_ctor(self.view.res(self.view.arg(c, 0)), action_names)
         if ctor is not None:
           self.emits.append((n.id, c, ctor[1], ctor[0]))
+    self.prep_name = role_anchors(fn.world)["formula_renamer"].name
     self.preps = [(n.id, c) for (n, c, nm) in fn.calls()
-                  if endswith(nm, "self._prepare_formula_renames") and
-                  len(c.args) + len(c.keywords) == 1]
+                  if endswith(nm, "self." + self.prep_name, self.prep_name) and
+                  1 <= len(c.args) + len(c.keywords) <= 2]
 
   @staticmethod
   def prep_arg(call):
@@ -2416,6 +2482,12 @@ class _Inliner(object):
       return None
     if fi.name in self.keep or fi.qualname in stack or fi is self.fi:
       return None
+    if fi.module.name == "useractions":
+      try:
+        if any(fi is a for a in role_anchors(self.world).values()):
+          return None          # an anchor of the rules, whatever it is called today
+      except AnalysisError:
+        pass
     return fi, is_method
 
   def instantiate(self, fi, is_method, call, body, how, targets):
@@ -2531,6 +2603,37 @@ class _Inliner(object):
             sub.inlined = self.inlined
             # helpers called by the helper (one more level)
             return sub.block(rep, stack | {fi.qualname}, depth - 1)
+    # a helper called inside an expression that is evaluated unconditionally: its body is placed
+    # before the statement and its result takes the place of the call
+    if depth > 0 and isinstance(s, (ast.Expr, ast.Assign, ast.AugAssign, ast.Return, ast.If,
+                                    ast.For)):
+      root = s.value if isinstance(s, (ast.Expr, ast.Assign, ast.AugAssign, ast.Return)) else \
+          (s.test if isinstance(s, ast.If) else s.iter)
+      if root is not None:
+        for c in _unconditional_calls(root):
+          if c is call:
+            continue
+          r = self.callee(c, stack)
+          if r is None:
+            continue
+          fi, is_method = r
+          body = _inlinable(fi)
+          if body is None:
+            continue
+          self.counter[0] += 1
+          tmp = ast.Name(id="ret__h%d" % self.counter[0], ctx=ast.Store())
+          rep = self.instantiate(fi, is_method, c, body, "assign", [tmp])
+          if rep is None:
+            continue
+          self.changed = True
+          self.inlined.add(fi.qualname)
+          sub = _Inliner(self.world, fi, self.keep, depth - 1)
+          sub.counter = self.counter
+          sub.inlined = self.inlined
+          pre = sub.block(rep, stack | {fi.qualname}, depth - 1)
+          use = ast.copy_location(ast.Name(id=tmp.id, ctx=ast.Load()), c)
+          s2 = _replace_node(s, c, use)
+          return pre + self.stmt(s2, stack, depth)
     # recurse into compound statements, sharing untouched sub-statements
     if isinstance(s, (ast.FunctionDef, ast.AsyncFunctionDef, ast.ClassDef)):
       return [s]
@@ -2562,6 +2665,52 @@ class _Inliner(object):
         setattr(s2, k, v)
       return [s2]
     return [s]
+
+
+def _unconditional_calls(root):
+  """Call nodes inside expression `root` that are evaluated whenever root is: not behind and/or,
+  a conditional expression, a comprehension or a lambda. Innermost (first evaluated) first."""
+  out = []
+
+  def go(n):
+    if isinstance(n, (ast.BoolOp, ast.IfExp, ast.Lambda, ast.ListComp, ast.SetComp, ast.DictComp,
+                      ast.GeneratorExp)):
+      if isinstance(n, ast.BoolOp):
+        go(n.values[0])
+      elif isinstance(n, ast.IfExp):
+        go(n.test)
+      elif isinstance(n, (ast.ListComp, ast.SetComp, ast.DictComp, ast.GeneratorExp)):
+        go(n.generators[0].iter)
+      return
+    for ch in ast.iter_child_nodes(n):
+      go(ch)
+    if isinstance(n, ast.Call):
+      out.append(n)
+
+  go(root)
+  return out
+
+
+def _replace_node(root, target, new):
+  """Copy of `root` in which node `target` is replaced by `new`; only the ancestors of target
+  are copied, everything else is shared."""
+  if root is target:
+    return new
+  for fld, val in ast.iter_fields(root):
+    if isinstance(val, ast.AST):
+      if any(y is target for y in ast.walk(val)):
+        r2 = copy.copy(root)
+        setattr(r2, fld, _replace_node(val, target, new))
+        return r2
+    elif isinstance(val, list):
+      for i, x in enumerate(val):
+        if isinstance(x, ast.AST) and any(y is target for y in ast.walk(x)):
+          r2 = copy.copy(root)
+          lst = list(val)
+          lst[i] = _replace_node(x, target, new)
+          setattr(r2, fld, lst)
+          return r2
+  return root
 
 
 def expand_helpers(world, fi, keep=(), depth=2):
